@@ -152,6 +152,13 @@ def run(ctx: Ctx) -> None:
                 break
         if len(ctx.findings) > 20:
             break
+    for src in gens.crossing_family():
+        ns += 1
+        toks = sweep_mds[0].parseInline(src)
+        e = wf(toks[0].children or [], True, "top[0].children")
+        if e:
+            ctx.fail("malformed-stream", f"parseInline: {e}", {"input": src, "cfg": gens.FIXED_CFGS[1], "api": "parseInline"})
+            break
     ctx.evaluations += ns
     ctx.cov["delimiter_sweep_strings"] = ns
     # tie: text_join on raw inline streams (snapshot before text_join), through the driver
